@@ -524,6 +524,7 @@ class Evaluator:
                 sub._depth = getattr(self, "_depth", 0) + 1
                 sub.pass_object = getattr(self, "pass_object", False)
                 sub.heap_mode = getattr(self, "heap_mode", False)
+                sub.objects = getattr(self, "objects", False)
                 sub.on_subscript = getattr(self, "on_subscript", None)
                 sub.trace.append(("enter " + str(nm), None, n))
                 sub.run_blocks(g.entry, max_steps=5000)
@@ -711,7 +712,102 @@ class Evaluator:
                     return hb
             cur = t
 
+    # ---- objects with constructors / destructors (enabled by `objects = True`) -------------------------------
+    def _run_special(self, g, prefix, args, n, label):
+        """run constructor / destructor g on the object whose fields live under `prefix` in this environment"""
+        rec = self.prog.records.get(g.cls, {})
+        fields = {fl["name"] for fl in rec.get("fields", [])}
+        root = lambda key: key.split(".")[0].split("[")[0]
+        pnames = {q["name"] for q in g.params}
+        senv = {k_: v for k_, v in self.env.items() if k_ not in pnames and root(k_) not in fields and k_ != "this"}
+        for k_, v in self.env.items():
+            if k_.startswith(prefix) and root(k_[len(prefix):]) in fields:
+                senv[k_[len(prefix):]] = v
+        senv.update({q["name"]: v for q, v in zip(g.params, args) if v is not None})
+        if getattr(self, "_depth", 0) > 30:
+            raise Unknown("inlining depth exceeded in %s (unbounded recursion)" % label)
+        sub = Evaluator(self.prog, g, env=senv, calls=self.calls)
+        sub.alias = {}
+        sub.inline = getattr(self, "inline", None)
+        sub._parent = self
+        sub._depth = getattr(self, "_depth", 0) + 1
+        sub.pass_object = getattr(self, "pass_object", False)
+        sub.heap_mode = getattr(self, "heap_mode", False)
+        sub.objects = True
+        sub.on_subscript = getattr(self, "on_subscript", None)
+        sub.trace.append(("enter " + label, None, n))
+        sub.run_blocks(g.entry, max_steps=5000)
+        sub.trace.append(("leave " + label, None, n))
+        for sk, sv in sub.stores:
+            rk = root(sk)
+            if rk in fields:
+                self.env[prefix + sk] = sv
+                self.stores.append((prefix + sk, sv))
+            elif sk.startswith("@") or "." in sk or "[" in sk or sk in self.env:
+                self.env[sk] = sv
+                self.stores.append((sk, sv))
+        self.trace.extend(sub.trace)
+        if getattr(sub, "threw", None) is not None:
+            self.threw = sub.threw
+            raise Thrown(label, exc=getattr(sub, "threw_type", None))
+
+    def _construct(self, prefix, ce, n):
+        """a CXXConstructExpr for the object under `prefix`: the constructor is run when it is inlinable.
+        Returns True when the object was constructed by running its constructor."""
+        f = self.f
+        c = ce.get("ctor") or {}
+        g = self.prog.functions.get(c.get("mn"))
+        inl = getattr(self, "inline", None) or set()
+        if g is None or g.qn not in inl or g.qn in self.calls:
+            return False
+        args = []
+        for a in f.args(ce):
+            try:
+                args.append(self.ev(a))
+            except Thrown:
+                raise
+            except Unknown:
+                args.append(None)
+        self.trace.append(("construct " + (ce.get("ct") or "?").replace("const ", ""), args, ce))
+        self._run_special(g, prefix, args, n, g.qn)
+        return True
+
+    def _destroy(self, prefix, cls, mn, n):
+        """destructor of the object under `prefix`: the user-written body when there is one (its CFG ends with the
+        member destructors), else the implicit one: the members' destructors in reverse order"""
+        g = self.prog.functions.get(mn) if mn else None
+        if g is None:
+            ds = [m for m in self.prog.methods_of(cls) if m.kind == "dtor"] if cls in self.prog.records else []
+            g = ds[0] if ds else None
+        inl = getattr(self, "inline", None) or set()
+        if g is not None:
+            if g.qn in self.calls:
+                hook = self.calls[g.qn]
+                self.trace.append((g.qn, [prefix], n))
+                hook(prefix)
+                return
+            if g.qn in inl:
+                self._run_special(g, prefix, [], n, g.qn)
+            return
+        for fl in reversed(self.prog.records.get(cls, {}).get("fields", [])):
+            ft = (fl.get("ct") or "").replace("const ", "").strip()
+            if ft in self.prog.records:
+                self._destroy(prefix + fl["name"] + ".", ft, None, n)
+
     def run_blocks(self, start, stop_blocks=(), max_steps=2000, on_call=None):
+        """Walk the CFG from block `start`, folding every element (see _run_blocks). With `objects` enabled, an exception
+        that leaves the function destroys the local objects that were constructed and are still alive (stack unwinding)."""
+        r = self._run_blocks(start, stop_blocks, max_steps, on_call)
+        if r[0] in ("throw", "return") and getattr(self, "_live", None):
+            # (clang lists the destructors of a returning scope behind the return statement of the same block)
+            thrown = (getattr(self, "threw", None), getattr(self, "threw_type", None))
+            live, self._live = self._live, []
+            for name, cls, mn in reversed(live):
+                self._destroy(name + ".", cls, mn, None)
+            self.threw, self.threw_type = thrown
+        return r
+
+    def _run_blocks(self, start, stop_blocks=(), max_steps=2000, on_call=None):
         """Walk the CFG from block `start`, folding every element; stops when a block in stop_blocks
         (or the exit) is reached. Unknown call results are tolerated when the value is unused
         (expression statements); a branch on an Unknown value raises."""
@@ -729,14 +825,66 @@ class Evaluator:
             blk = f.blocks[b]
             # evaluate only top-level elements: elements that are not sub-expressions of a later element
             top = self.top_elements(blk)
+            if getattr(self, "objects", False) and any(isinstance(e, dict) for e in blk["el"]):
+                tops_ = set(top)
+                top = [e for e in blk["el"] if isinstance(e, dict) or e in tops_]
             vals = {}
             caught_at = None
             for e in top:
+                if isinstance(e, dict):
+                    # constructor initialisers and implicit destructor calls (only with `objects`)
+                    try:
+                        if e.get("e") == "init" and e.get("field") and e.get("expr") is not None:
+                            x_ = f.nodes[e["expr"]]
+                            xs_ = f.strip(x_)
+                            if xs_ is not None and xs_["k"] == "CXXConstructExpr" and (xs_.get("ct") or "").replace("const ", "").strip() in self.prog.records:
+                                if not self._construct(e["field"] + ".", xs_, x_):
+                                    try:
+                                        self.ev(x_)
+                                    except Unknown:
+                                        pass
+                            else:
+                                try:
+                                    v_ = self.ev(x_)
+                                    self.env[e["field"]] = v_
+                                    self.stores.append((e["field"], v_))
+                                except Thrown:
+                                    raise
+                                except Unknown:
+                                    self.env.pop(e["field"], None)
+                        elif e.get("e") == "autodtor" and e.get("var"):
+                            live_ = getattr(self, "_live", [])
+                            hit_ = [x for x in live_ if x[0] == e["var"]]
+                            if hit_:
+                                self._live = [x for x in live_ if x[0] != e["var"]]
+                                self._destroy(e["var"] + ".", hit_[-1][1], e.get("mn"), None)
+                        elif e.get("e") == "memberdtor" and e.get("field"):
+                            cls_ = (e.get("qn") or "").rsplit("::", 1)[0]
+                            self._destroy(e["field"] + ".", cls_, e.get("mn"), None)
+                    except Thrown as t_:
+                        self.threw_type = t_.exc
+                        self.threw = getattr(self, "threw", None) or True
+                        return "throw", visited
+                    continue
                 n = f.nodes[e]
                 if n["k"] == "DeclStmt":
                     for d in n.get("decls", []):
                         if d.get("init") is not None:
                             i0_ = f.strip(d["init"])
+                            if getattr(self, "objects", False) and i0_ is not None and i0_["k"] == "CXXConstructExpr" and (d.get("ct") or "").replace("const ", "").strip() in self.prog.records:
+                                try:
+                                    if self._construct(d["name"] + ".", i0_, n):
+                                        if not hasattr(self, "_live"):
+                                            self._live = []
+                                        self._live.append((d["name"], (d.get("ct") or "").replace("const ", "").strip(), None))
+                                        continue
+                                except Thrown as t_:
+                                    caught_at = self._dispatch(n, t_.exc)
+                                    if caught_at is None:
+                                        self.threw_type = t_.exc
+                                        self.threw = getattr(self, "threw", None) or n
+                                        return "throw", visited
+                                    break
                             if i0_ is not None and i0_["k"] == "InitListExpr":
                                 def fill(prefix, lst, ext_):
                                     els_ = lst.get("c", [])
